@@ -38,6 +38,21 @@ Zeros(nres) == [i \in 1..nres |-> 0]
 
 Fwd(m, f, args) == [m |-> m, f |-> f, args |-> args]
 
+\* Identity of reference-like arguments.  The table function F1 also WRITES through every reference-like argument it
+\* is given (element 0 of a non-empty slice -- the variadic one included, the call is made with a spread slice --, the
+\* value of a map key, the target of a pointer): +MutDelta on the first code.  Which non-variadic positions are
+\* reference-like is a property of the concrete type set the class is materialised with (RefPositions; the driver
+\* re-derives it from the real parameter types and refuses to run on a disagreement).
+MutDelta == 5
+TypeSetNames == {"ints", "mixed", "rich", "refs"}
+RefPositions(ts) == CASE ts = "rich" -> {1, 2} [] ts = "refs" -> {1, 2, 3} [] OTHER -> {}
+\* (the type sets vary method A's signature; B is always B(x int) int)
+IsRef(ts, m, shape, i, args) == IF shape.var /\ i = shape.ar THEN Len(args[i]) > 0 ELSE m = "A" /\ i \in RefPositions(ts)
+Mut(a) == [a EXCEPT ![1] = @ + MutDelta]
+\* the caller's argument objects as the caller sees them after the call
+AfterFor(ts, m, shape, f, args) ==
+  [i \in 1..Len(args) |-> IF f = "F1" /\ IsRef(ts, m, shape, i, args) THEN Mut(args[i]) ELSE args[i]]
+
 \* A second instance of the same mock type (the "bystander") is called once per method before the history
 \* starts; nothing done to the instance under test may change what the bystander recorded.
 ByTag == 7
@@ -83,6 +98,11 @@ ResultsAreFuncResults(sig, opt, funcs, logs, e) ==
   /\ f = "FR" => e.reply.inner = Results(f, InnerArgs(sig[m]), nres)
   \* f = "FP": the property says nothing about a panicking MFunc's reply
 
+(* "with exactly the call's arguments": for reference-like arguments that includes identity -- what MFunc stores
+   through a slice, map or pointer it was given is visible through the caller's own value afterwards *)
+ArgumentsAreTheCallersObjects(sig, ts, funcs, e) ==
+  e.after = AfterFor(ts, e.m, sig[e.m], funcs[e.m], e.args)
+
 (* "When MFunc is nil the call panics with a message naming MFunc, unless stub-impl is set, in which
    case the call is still recorded and zero values are returned" *)
 NilFuncContract(sig, opt, funcs, logs, e) ==
@@ -92,8 +112,9 @@ NilFuncContract(sig, opt, funcs, logs, e) ==
                       /\ e.logs[m] = Append(logs[m], e.args)
                  ELSE e.reply.kind = "panic" /\ e.reply.names
 
-CallOK(sig, opt, funcs, logs, e) ==
+CallOK(sig, opt, ts, funcs, logs, e) ==
   /\ FuncsUntouched(funcs, e)
+  /\ ArgumentsAreTheCallersObjects(sig, ts, funcs, e)
   /\ OneRecordPerCallInOrder(sig, opt, funcs, logs, e)
   /\ FieldsInParameterOrder(sig, opt, funcs, logs, e)
   /\ ForwardedExactlyOnce(sig, opt, funcs, logs, e)
@@ -128,17 +149,17 @@ ReturnedRecordsStable(snaps, e) == e.snaps = snaps
 SnapOf(logs, e, x) == IF e.logs[x] # logs[x] /\ e.logs[x] # << >> THEN <<[m |-> x, recs |-> e.logs[x]]>> ELSE << >>
 SnapsAfter(snaps, logs, e) == snaps \o SnapOf(logs, e, "A") \o SnapOf(logs, e, "B")
 
-StepOK(sig, opt, funcs, logs, by0, snaps, e) ==
+StepOK(sig, opt, ts, funcs, logs, by0, snaps, e) ==
   /\ OtherInstanceUntouched(by0, e)
   /\ ReturnedRecordsStable(snaps, e)
-  /\ CASE e.op = "call"     -> CallOK(sig, opt, funcs, logs, e)
+  /\ CASE e.op = "call"     -> CallOK(sig, opt, ts, funcs, logs, e)
        [] e.op = "resetm"   -> ResetEmptiesOnlyItsTarget(sig, opt, funcs, logs, e)
        [] e.op = "resetall" -> ResetEmptiesOnlyItsTarget(sig, opt, funcs, logs, e)
        [] e.op = "setfunc"  -> SetFuncOK(sig, opt, funcs, logs, e)
        [] OTHER -> FALSE
 
 \* diagnosis only (which clause rejected a step); the verdict is StepOK
-FailedClause(sig, opt, funcs, logs, by0, snaps, e) ==
+FailedClause(sig, opt, ts, funcs, logs, by0, snaps, e) ==
   IF ~OtherInstanceUntouched(by0, e) THEN "OtherInstanceUntouched"
   ELSE IF ~ReturnedRecordsStable(snaps, e) THEN "ReturnedRecordsStable"
   ELSE IF e.op = "call" THEN
@@ -151,6 +172,7 @@ FailedClause(sig, opt, funcs, logs, by0, snaps, e) ==
        ELSE IF funcs[m] # "FR" /\ ~FieldsInParameterOrder(sig, opt, funcs, logs, e) THEN "FieldsInParameterOrder"
        ELSE IF ~OneRecordPerCallInOrder(sig, opt, funcs, logs, e) THEN "OneRecordPerCallInOrder"
        ELSE IF ~ForwardedExactlyOnce(sig, opt, funcs, logs, e) THEN "ForwardedExactlyOnce"
+       ELSE IF ~ArgumentsAreTheCallersObjects(sig, ts, funcs, e) THEN "ArgumentsAreTheCallersObjects"
        ELSE IF ~ResultsAreFuncResults(sig, opt, funcs, logs, e) THEN "ResultsAreFuncResults"
        ELSE "none"
   ELSE IF e.op \in {"resetm", "resetall"} THEN "ResetEmptiesOnlyItsTarget"
